@@ -64,6 +64,26 @@ class RSym:
         return ev(self.expr, self.env, beta)
 
 
+class RSymBound(RSym):
+    """A symbolic value of an included template whose parameters are bound to values that are
+    themselves symbolic in the including program (e.g. wrap: sub(a={w}*2))."""
+
+    def __init__(self, inner, bindings):
+        syms = set()
+        for v in bindings.values():
+            if isinstance(v, RSym):
+                syms |= set(v.syms)
+        super().__init__(expr=None, env={}, syms=frozenset(syms), vtype=None)
+        self.inner = inner
+        self.bindings = bindings
+
+    def eval(self, beta):
+        b2 = {}
+        for k, v in self.bindings.items():
+            b2[k] = v.eval(beta) if isinstance(v, RSym) else v
+        return self.inner.eval(b2)
+
+
 @dataclass(frozen=True)
 class RPName:
     name: str
@@ -413,6 +433,11 @@ def loop_values(loop, env):
 
 def instantiate_value(v, beta):
     if isinstance(v, RSym):
+        if any(isinstance(b, RSym) for b in beta.values()):
+            used = {k: b for k, b in beta.items() if k in v.syms}
+            if any(isinstance(b, RSym) for b in used.values()):
+                return RSymBound(v, used)
+            return v.eval(used)
         return v.eval(beta)
     if isinstance(v, RList):
         return RList([instantiate_value(i, beta) for i in v.items])
